@@ -8,7 +8,7 @@ import re
 import time
 from typing import Any
 
-from .. import semfam, semgen, semlean, semrun
+from .. import semfam, semfam2, semgen, semlean, semrun
 from ..runner import Check
 from ..translate import constraints as tconstraints
 
@@ -152,7 +152,7 @@ def campaign_model(ck: Check, n: int, parts: tuple = ("valid", "tr", "acc"), for
     frng = Rng(ck.seed, f"{ck.prop}/{fork}-families")  # (not ck.rng.fork: the streams of the later campaigns stay as they were)
     off = frng.below(96)
     for i in range(max(6, n // 6)):
-        for gen, tag in ((lambda r, k: semfam.nullable_doc(r, k, kinds=semfam.MODELLED_NULLABLE_KINDS), "nullable"), (semfam.nested_allof_doc, "nested")):
+        for gen, tag in ((lambda r, k: semfam.nullable_doc(r, k, kinds=semfam.MODELLED_NULLABLE_KINDS), "nullable"), (semfam.nested_allof_doc, "nested"), (semfam2.fracbound_doc, "fracbound")):
             doc, feats, cand = gen(frng.fork(f"{tag}{i}"), off + i)
             docs.append((doc, {f"family:{tag}", *feats}))
             fam_insts[semgen.canon(doc)] = [c for c in cand if semgen.is_valid(doc, c)]
@@ -356,6 +356,11 @@ def big_exclusive_bound(doc: dict) -> bool:
     return doc_has(doc, p)
 
 
+def sibling_keywords_of_union(doc: Any) -> bool:
+    """some anyOf / oneOf of the document has validation keywords written next to it"""
+    return doc_has(doc, lambda s_: ("anyOf" in s_ or "oneOf" in s_) and any(k in s_ for k in semfam2.CONSTRAINT_KEYS))
+
+
 def causes_for(doc: dict, inst: Any, style: str, oracle: str = "valid_rejected") -> str:
     if oracle == "dump_mismatch" and style == "v1" and union_str_before_number(doc):
         return "v1_union_left_to_right"
@@ -367,7 +372,10 @@ def causes_for(doc: dict, inst: Any, style: str, oracle: str = "valid_rejected")
         return "v1_const_member_required_by_allOf"
     if comma_pattern_in_union(doc):
         return "comma_in_pattern_in_union"
-    if nonintegral_exclusive_on_integer(doc):
+    if semfam2.rejected_by_truncation(doc, inst):
+        # D10, precisely: the instance is valid, and is no longer valid once every non-integral bound of an
+        # integer-typed schema is cut by int() — a rejection of an instance that the truncated document still admits
+        # (a bound moved the other way, or too far) is NOT this finding
         return "nonintegral_bound_on_integer"
     if style == "v1" and unanchored_pattern_at(doc, inst):
         return "v1_regex_anchored"
@@ -459,6 +467,8 @@ def oracle_doc(ck: Check, camp, doc: dict, target: tuple, insts: list | None = N
                 cause = "dataclass_non_default_after_default"
             if cause == "none" and kind == semrun.STYLE_MODEL["v2"] and shadowed_class_names(b.code):
                 cause = "member_name_shadows_class_name"
+            if cause == "none" and len(target) >= 2 and routing in ("field", "annotated") and sibling_keywords_of_union(doc):
+                cause = "sibling_keywords_field_routing"
             ck.fail({**base, "oracle": "valid_rejected", "mechanism": "module_not_importable", "cause": cause}, inp, f"the generated module cannot be imported ({b.error[:200]}): no valid instance can be accepted")
         return
     try:
@@ -475,6 +485,8 @@ def oracle_doc(ck: Check, camp, doc: dict, target: tuple, insts: list | None = N
             if cause == "none" and style == "v2" and kind == semrun.STYLE_MODEL["v2"] and shadowed_class_names(b.code):
                 cause = "member_name_shadows_class_name"
             if not ok:
+                if cause == "none" and len(target) >= 2 and routing in ("field", "annotated") and sibling_keywords_of_union(doc) and "TypeError" in str(obj):
+                    cause = "sibling_keywords_field_routing"
                 if cause == "none" and optname == "collapse_root_models" and collapsed_item_count(doc, str(obj)):
                     cause = "collapse_root_models_array_def_item_count"
                 ck.fail({**base, "oracle": "valid_rejected", "mechanism": "validation_error", "cause": cause}, {**inp, "instance": inst}, f"valid instance rejected: {str(obj)[:300]}")
@@ -752,16 +764,26 @@ def campaign_random(ck: Check, n: int) -> None:
 
 
 FAMILY_TARGETS = [*TARGETS, ("dataclasses.dataclass",), ("typing.TypedDict",)]
+# the bounds of an integer are written by the pydantic type managers (constrained type) or the field (Field()):
+# both styles × the constrained-type and the Field() routing
+# keywords next to anyOf/oneOf: under the Field() routing they are written as Field() arguments of members they cannot
+# apply to (known finding C03-sibling-field: nothing is accepted there); v1-style unions coerce left to right (D35)
+SIB_TARGETS = [("v2", "contype"), ("dataclasses.dataclass",), ("typing.TypedDict",)]
+FRAC_TARGETS = [("v2", "contype"), ("v1", "contype"), ("v2", "field"), ("v1", "field")]
 
 
-def campaign_family(ck: Check, n_nullable: int, n_nested: int) -> None:
+def campaign_family(ck: Check, n_nullable: int, n_nested: int, n_frac: int = 0, n_sib: int = 0) -> None:
     """two families the general generator does not reach (vlib/semfam.py), every document through every target"""
     ca = ck.campaign("e2e oracle, family: nullable type lists [T, \"null\"] for every type T × every position, null instances at exactly that position")
     cb = ck.campaign("e2e oracle, family: combinations (allOf / oneOf / anyOf) nested in allOf members, with and without sibling properties, instances carrying the nested members")
-    for camp, n, gen, fork in ((ca, n_nullable, semfam.nullable_doc, "fam-nullable"), (cb, n_nested, semfam.nested_allof_doc, "fam-nested")):
+    cf = ck.campaign("e2e oracle, family: integer-typed schemas with NON-INTEGRAL bounds (4 bound keywords × bound below -1 / in (-1,0) / in (0,1) / above 1 × fractions × every place), the boundary integers floor(b)-1 … ceil(b)+1 as instances")
+    cs = ck.campaign("e2e oracle, family: validation keywords as SIBLINGS of anyOf/oneOf × member order (null first / middle / last / absent) × scalar kind × 2-3 members × every place: values inside the bounds, null, the other members' values (v2 constrained types, dataclass, TypedDict; the Field() routing of this family is known finding C03-sibling-field)")
+    sib_gen = lambda r, k, plain=False: semfam2.sibling_union_doc(r, k, plain)[:3]  # noqa: E731
+    for camp, n, gen, fork in ((ca, n_nullable, semfam.nullable_doc, "fam-nullable"), (cb, n_nested, semfam.nested_allof_doc, "fam-nested"), (cf, n_frac, semfam2.fracbound_doc, "fam-fracbound"), (cs, n_sib, sib_gen, "fam-siblings")):
         t0 = time.time()
         rng = ck.rng.fork(fork)
         off = rng.below(96)
+        targets = FRAC_TARGETS if camp is cf else (SIB_TARGETS if camp is cs else FAMILY_TARGETS)
         for i in range(n):
             plain = i % 2 == 1  # dataclass output has no aliases: plain member names in every second document
             doc, feats, cand = gen(rng.fork(str(i)), off + i, plain)
@@ -780,7 +802,7 @@ def campaign_family(ck: Check, n_nullable: int, n_nested: int) -> None:
                 camp.hit("lean_model:covered")
             except semlean.Unmodelled as e:
                 camp.hit(f"lean_model:outside ({str(e)[:50]})")
-            for t in FAMILY_TARGETS:
+            for t in targets:
                 if t[0] == "dataclasses.dataclass" and not plain:
                     continue
                 oracle_doc(ck, camp, doc, t, insts)
@@ -800,9 +822,17 @@ def search(ck: Check) -> None:
     for _label, doc in focused_docs():
         for t in TARGETS:
             oracle_doc(ck, camp, doc, t)
-        if ck.failures:
+        if any(match_none(ck, f) for f in ck.failures):
             return
     rng = ck.rng.fork("search")
+    # non-integral bounds on integers: all 48 (keyword, zone, fraction) combinations, boundary integers as instances
+    for i in range(48):
+        doc, _f, cand = semfam2.fracbound_doc(rng.fork(f"frac{i}"), i)
+        insts = [c for c in cand if semgen.is_valid(doc, c)]
+        for t in FRAC_TARGETS[:2] if i % 2 else FRAC_TARGETS[2:] + FRAC_TARGETS[:1]:
+            oracle_doc(ck, camp, doc, t, insts)
+        if any(match_none(ck, f) for f in ck.failures):
+            return
     # the families first (a disagreement of the model on a family document is most likely to show there)
     for i in range(40):
         for gen, tag in ((semfam.nullable_doc, "nullable"), (semfam.nested_allof_doc, "nested")):
@@ -816,7 +846,7 @@ def search(ck: Check) -> None:
         doc, _ = semgen.gen_doc(rng.fork(str(i)), gen_cfg(i))
         for t in TARGETS:
             oracle_doc(ck, camp, doc, t)
-        if ck.failures:
+        if any(match_none(ck, f) for f in ck.failures):
             return
 
 
@@ -849,7 +879,7 @@ def run(ck: Check) -> None:
     campaign_model(ck, 40 if quick else 400)
     campaign_focused(ck)
     campaign_random(ck, 70 if quick else 900)
-    campaign_family(ck, 13 if quick else 130, 8 if quick else 100)
+    campaign_family(ck, 13 if quick else 130, 8 if quick else 100, 16 if quick else 96, 12 if quick else 96)
     ck.search_hooks.append(search)
     known_findings(ck)
 
